@@ -135,7 +135,39 @@ func hashOf(key any) uint64 {
 // Case records one generated case. key identifies the case for distinct counting (any
 // JSON-serialisable value or a string); nontrivial is the property's stated rule; classes feed the
 // histogram; sample, if non-nil, may be kept as one of the written-out samples.
+// clip keeps samples readable: strings longer than 3000 bytes inside a sample are cut (a generated document may
+// contain a line of 64 KiB and more).
+func clip(v any) any {
+	switch x := v.(type) {
+	case string:
+		if len(x) > 3000 {
+			return x[:1500] + fmt.Sprintf(" …[%d bytes cut]… ", len(x)-3000) + x[len(x)-1500:]
+		}
+		return x
+	case map[string]any:
+		out := make(map[string]any, len(x))
+		for k, e := range x {
+			out[k] = clip(e)
+		}
+		return out
+	case []any:
+		out := make([]any, len(x))
+		for i, e := range x {
+			out[i] = clip(e)
+		}
+		return out
+	case []string:
+		out := make([]any, len(x))
+		for i, e := range x {
+			out[i] = clip(e)
+		}
+		return out
+	}
+	return v
+}
+
 func (r *Rec) Case(key any, nontrivial bool, sample any, classes ...string) {
+	sample = clip(sample)
 	r.mu.Lock()
 	defer r.mu.Unlock()
 	r.p.Evaluations++
@@ -174,6 +206,7 @@ func (r *Rec) Bulk(evals, distinctNontrivial int64, classes map[string]int64) {
 }
 
 func (r *Rec) Sample(s any) {
+	s = clip(s)
 	r.mu.Lock()
 	if len(r.p.Samples) < r.maxSamp+4 {
 		r.p.Samples = append(r.p.Samples, s)
